@@ -148,6 +148,28 @@ def clause2_accept(ctx, P, cg):
 
     def is_errno(t):
         return t[0] == "load" and Q.is_call_to(t[1], "__errno_location")
+    def true_set(g):
+        """constants K for which the (own, one-parameter) classifier g(K) returns non-zero"""
+        ks = set()
+        for gv in Q.path_views(ctx, P, g):
+            eqs = set()
+            for (a, p) in gv.atoms:
+                if a[0] == "switch" and a[1][0] == "param" and a[1][1] == 0:
+                    eqs.add(a[2])
+                if a[0] == "cmp" and a[2][0] == "param" and a[2][1] == 0 and a[3][0] == "const" and Q._poleq(a, p):
+                    eqs.add(a[3][1])
+            rc = gv.ret_const()
+            if rc is not None:
+                if rc != 0:
+                    ks |= eqs
+                continue
+            ro = gv.ret_operand()
+            rt = P.cond(g, ro, gv.envs()[-1]) if ro is not None else None
+            if rt and rt[0] != "const":
+                a, p = rt
+                if a[0] == "cmp" and a[2][0] == "param" and a[2][1] == 0 and a[3][0] == "const" and Q._poleq(a, p):
+                    ks.add(a[3][1])
+        return ks
     fatal = {}
     n_abort = 0
     for v in views:
@@ -163,6 +185,10 @@ def clause2_accept(ctx, P, cg):
                 excluded.add(a[3][1])
             if a[0] == "switch_default" and is_errno(a[1]):
                 excluded |= set(a[2])
+            if a[0] == "truth" and a[1][0] == "call" and len(a[1][2]) == 1 and is_errno(a[1][2][0]) and not p:
+                hs = P.by_src.get(a[1][1], [])
+                if len(hs) == 1 and P.own(hs[0]):
+                    excluded |= true_set(hs[0])
         for name, val in consts.items():
             if val not in excluded:
                 fatal.setdefault(name, v)
